@@ -152,7 +152,8 @@ def run_tlc_trace(trace, meta, module="MCTrace"):
     return res
 
 
-def run_mc(module, cfg, tier, workers=NCPU, timeout=1500, extra=()):
+def run_mc(module, cfg, tier, workers=NCPU, timeout=None, extra=()):
+    timeout = timeout or (3600 if tier == "thorough" else 1500)
     """Exhaustive TLC run on the model; returns dict(states, distinct, depth, ok, violated, out)."""
     meta = os.path.join(WORK, "mc-%s-%d" % (module, os.getpid()))
     cmd = tlc_cmd(SPEC, module, cfg, meta, os.path.join(SPEC, "lib/nat"), ["-workers", str(workers)] + list(extra))
